@@ -36,7 +36,7 @@ def enum_cfgs(tier: str) -> list[tuple[str, dict[str, Any], dict[str, Any]]]:
             ("sleep-reset1", dict(BASE, sleep=0.5, reset=1), {}),
             ("zk1-sleep", dict(BASE, zk=1, sleep=2.0, duration=0.3), {"key": {"len": 1, "accept": False, "nrc": 0x35}}),
             ("zkauto-exhaust", dict(BASE, zk=0, zkmax=2, duration=0), {"key": {"len": 5, "accept": False, "nrc": 0x35}}),
-            ("infinite", dict(BASE, duration=0), {}),
+            ("infinite", dict(BASE, duration=-1), {}),
         ]
     return out
 
@@ -68,7 +68,7 @@ def seed_lengths(tier: str) -> list[dict[str, Any]]:
 def interrupts(tier: str) -> list[dict[str, Any]]:
     cases = []
     step = 0.5 if tier == "quick" else 0.25
-    for cfg, ecu in ((dict(BASE, duration=0), {"seed_tail": [["pos", 3], ["neg", 0x37], ["pos", 2]], "lat": 1.0}),
+    for cfg, ecu in ((dict(BASE, duration=-0.5), {"seed_tail": [["pos", 3], ["neg", 0x37], ["pos", 2]], "lat": 1.0}),
                      (dict(BASE, duration=0, zk=2, sleep=0.5), {"seed_tail": [["pos", 3]], "lat": 0.75,
                                                                   "key": {"len": 2, "accept": False, "nrc": 0x35}}),
                      (dict(BASE, duration=0.1, reset=2, check=True), {"seed_tail": [["pos", 2], ["posdrop", 2]], "lat": 1.0,
@@ -99,7 +99,7 @@ def sampled(tier: str, seed: int) -> list[dict[str, Any]]:
     cases = []
     for i in range(n):
         cfg: dict[str, Any] = {"session": r.choice(["2", "0x03", "3"]), "level": r.choice(["0x11", "1", "0x61", "5"]),
-                               "duration": r.choice([0, 0, 0.1, 0.2, 0.4])}
+                               "duration": r.choice([0, 0, -2, 0.1, 0.2, 0.4])}
         if r.random() < 0.3:
             cfg["data"] = r.choice(["aa", "aabb", "00", "0102030405"])
         if r.random() < 0.4:
@@ -117,7 +117,7 @@ def sampled(tier: str, seed: int) -> list[dict[str, Any]]:
         ecu: dict[str, Any] = {"seed": _rand_script(r, r.randint(0, 6)),
                                "seed_tail": _rand_script(r, r.randint(1, 3)) if r.random() < 0.5 else [["pos", r.choice([1, 2, 4])]],
                                "lat": r.choice([0.25, 0.5, 1.0, 1.5])}
-        if all(b[0] == "sil" for b in ecu["seed_tail"]) and cfg["duration"] == 0:
+        if all(b[0] == "sil" for b in ecu["seed_tail"]) and cfg["duration"] <= 0:
             ecu["seed_tail"] = [["pos", 2]]
         ecu["key"] = {"len": r.choice([1, 2, 3, 4]), "accept": r.random() < 0.2, "nrc": r.choice([0x35, 0x35, 0x35, 0x36, 0x24]),
                       "sil": r.random() < 0.1, "drop": r.random() < 0.15}
